@@ -147,6 +147,10 @@ class Engine:
     def chunk_size(self, config, tier):
         return 1 if config == "codegen" else 40
 
+    def selftest_n(self, config, tier):
+        # a codegen run costs ~10 s (child interpreters + gcc): repeat only a few of them for the determinism self-test
+        return (2 if tier == "quick" else 8) if config == "codegen" else 10 ** 9
+
     def min_cap(self, plan):
         return 25 if plan.get("kind") == "codegen" else 300
 
